@@ -99,9 +99,9 @@ def registry():
         "per-character decoding in dependencies (encoding_rs, quick-xml entity expansion)",
         [part(W.r_sst, only=["shared strings", "xls SST"]), X.r_cdata, X.r_xmlcfg, X.r_rph, X.r_ns, W.r_cont, W.r_odspara, M.r_unesc, M.r_counthint, U.r_dbcs_enc, U.r_utf16, U.r_varint, U3.r_dbcs_out])
     R["C20"] = _p(
-        "Decides: the password sniff dominates archive opening and its error is propagated; it rewinds the reader to offset 0 right before parsing the compound file; Password depends exactly on the EncryptedPackage entry; the FILEPASS arm is unconditional and the only place where xls builds Password; any manifest:encryption-data start returns Password and the scan is always reached; Password variants are built nowhere else (R-PWD); the directory the sniff searches is read in full whatever the sector size (R-CFBLEN).",
+        "Decides: the password sniff dominates archive opening and its error is propagated; it rewinds the reader to offset 0 right before parsing the compound file; Password depends exactly on the EncryptedPackage entry; the FILEPASS arm is unconditional and the only place where xls builds Password; any manifest:encryption-data start returns Password and the scan is always reached; Password variants are built nowhere else (R-PWD); the directory the sniff searches is read in full whatever the sector size (R-CFBLEN) and its entries (name cut at the first NUL, type, start, size) are decoded at the offsets of MS-CFB (R-TAB-CFB).",
         "container-layout independence of the sniff (delegated to C13)",
-        [W.r_pwd, U3.r_cfblen])
+        [W.r_pwd, U3.r_cfblen, T.r_tab_cfb])
     return R
 
 
